@@ -3,6 +3,7 @@ import TempestVerif.Model.EM
 import TempestVerif.Model.HGMM
 import TempestVerif.Model.GMM
 import TempestVerif.Model.HFit
+import TempestVerif.Model.ClusterLits
 /-
   line-protocol handlers of property C15.
   Matrices cross as rows separated by `;` (entries by `,`), stacks of matrices by `|`.
@@ -230,8 +231,14 @@ def hgmmFitH (args : List (String × String)) : String :=
       s!"ok {f.clusters.length} {showMat toString f.clusters} {showList showLabel f.labels} {showMat showFloat f.centers} {showStack showFloat f.covs} {showList showFloat f.weights} {trS} {showList showLabel p1} {showMat showFloat pp1} {showList showLabel p0} {showMat showFloat pp0}"
   | _, _, _, _, _, _, _ => "bad-op"
 
+/-- `lits.F` → the literal parameters of `Model.ClusterLits` as the driver evaluates them at `Float`:
+    `<eps> <reg_covar> <tol> <max_iter> <n_init>` (`Props/C15Source.lean` ties them to the literals of the source) -/
+def litsH : String :=
+  s!"{showFloat (Model.ClusterLits.eps : Float)} {showFloat (Model.ClusterLits.regCovar : Float)} {showFloat (Model.ClusterLits.tol : Float)} {Model.ClusterLits.maxIter} {Model.ClusterLits.nInit}"
+
 def handle (cmd : String) (args : List (String × String)) : Option String :=
   match cmd with
+  | "lits.F" => some litsH
   | "mstep.F" => some (mstepH Float args)
   | "mstep.Q" => some (mstepH Rat args)
   | "init.F" => some (initH Float args)
